@@ -69,12 +69,22 @@ def _run_one(m: dict, tier: str) -> tuple[dict, str, str]:
             f.write_text(s)
         env = dict(os.environ, VERIF_REPO_SRC=str(tmp / "src"), VERIF_OUT=str(tmp / "out"), VERIF_NO_SHRINK="1",
                    VERIF_JOBS=os.environ.get("VERIF_MUT_JOBS", "4"))
+        # own process group: on a timeout the whole tree of workers is killed (workers do not carry the scratch path in their
+        # command line, so they cannot be found by name)
+        import signal as _sig
+
+        pr = subprocess.Popen([str(ROOT / "bin" / "check"), m["prop"], tier], stdout=subprocess.PIPE, stderr=subprocess.PIPE, text=True, env=env,
+                              start_new_session=True)
         try:
-            r = subprocess.run([str(ROOT / "bin" / "check"), m["prop"], tier], capture_output=True, text=True, env=env,
-                               timeout=int(os.environ.get("VERIF_MUT_TIMEOUT", "600")))
+            so, se = pr.communicate(timeout=int(os.environ.get("VERIF_MUT_TIMEOUT", "600")))
         except subprocess.TimeoutExpired:
-            subprocess.run("ps aux | grep %s | grep -v grep | awk '{print $2}' | xargs -r kill" % tmp.name, shell=True)
+            try:
+                os.killpg(pr.pid, _sig.SIGKILL)
+            except ProcessLookupError:
+                pass
+            pr.wait()
             return m, "HANG(timeout)", ""
+        r = subprocess.CompletedProcess(pr.args, pr.returncode, so, se)
         lines = [l for l in r.stdout.splitlines() if l.startswith("violation:")]
         if r.returncode == 1:
             if os.environ.get("VERIF_SAVE_REGRESS") == "1":
